@@ -2,6 +2,7 @@
 from __future__ import annotations
 
 import numpy as np
+from hypothesis import strategies as st
 
 from vp.runner import Part, Result
 from vp.oracle import units_si as U
@@ -11,7 +12,7 @@ from vp import simprops as SP
 
 ID = 'C03'
 RULE = ('Valid powertrains by construction (as C01/C02, inertias in all 8 inertia units, dt and T in any of the 4 '
-        'time units, optional duty-cycle histories, self-locking and free worm matings). For EVERY recorded '
+        'time units, optional duty-cycle histories, self-locking and free worm matings; in half of the run + continuation histories the first run is ended early by a stop condition on the output position and then continued). For EVERY recorded '
         'instant: acceleration of the last element = its net torque / equivalent inertia, the inertia being '
         'recomputed from the case by the documented reduction (J <- J * ratio + J_i); exempt only instants at which '
         'a self-locking powertrain records all speeds and accelerations exactly zero. For EVERY pair of consecutive '
@@ -26,8 +27,35 @@ ASSUMPTIONS = ['equivalent inertia by the documented reduction in vp/model.py',
                'behind a large accumulated value)']
 
 
+def _with_stop(case):
+    """the first run of a run + continuation history is ended early by a stop condition (threshold at a quantile of the
+    output position of the un-stopped first run) and then continued: the update relations hold across that seam too"""
+    from vp import sim as S
+    try:
+        b0, t0, e0 = S.simulate(dict({k: v for k, v in case.items() if k != 'stop_q'}, history=case['history'][:1]))
+    except Exception:  # noqa
+        return None
+    if e0 is not None or not t0 or t0[-1].n < 4 or not I.complete(t0[-1]) or not I.finite_trace(t0[-1]):
+        return None
+    last = b0.model.n - 1
+    series = t0[-1].get(last, 'angular position')
+    lo, hi = float(np.min(series)), float(np.max(series))
+    if not hi > lo:
+        return None
+    thr = lo + (hi - lo) * case['stop_q']
+    c2 = {k: v for k, v in case.items() if k != 'stop_q'}
+    c2['stop'] = {'sensor': 'encoder', 'target': last, 'op': 'ge' if series[0] < thr else 'le', 'threshold': [thr, 'rad']}
+    c2['history'] = [dict(case['history'][0], stop=True)] + list(case['history'][1:])
+    return c2, t0[-1].n
+
+
 def check(case) -> Result:
     res = Result()
+    if case.get('stop_q') is not None:
+        ws = _with_stop(case)
+        case = {k: v for k, v in case.items() if k != 'stop_q'}
+        if ws is not None:
+            case, n_unstopped = ws
     r = SP.simulate_checked(case, res, ID)
     if r is None:
         return res
@@ -51,6 +79,8 @@ def check(case) -> Result:
     js = sorted(mdl.J)
     near = any(js[i + 1] / js[i] < 100 for i in range(len(js) - 1))
     res.nontrivial = n_acc >= 3 and any(x != 1.0 for x in mdl.ratios[1:]) and near
+    if case.get('stop'):
+        res.classes += ('stopped-early-then-continued' if traces and traces[0].n < n_unstopped else 'stop-condition-never-held',)
     res.classes += ('self-locking' if mdl.self_locking else 'free',
                     'controlled' if case.get('control') else 'uncontrolled',
                     'dt-unit:' + case['history'][0]['dt'][1])
@@ -63,9 +93,18 @@ def check_golden(case) -> Result:
                                                    'driving torque', 'load torque'))
 
 
+@st.composite
+def s_case(draw, **kw):
+    case = draw(G.s_case_controlled(**kw))
+    h = case['history']
+    if len(h) >= 2 and h[0]['op'] == 'run' and h[1]['op'] == 'run' and draw(st.integers(0, 1)) == 0:
+        case['stop_q'] = draw(st.floats(0.05, 0.95))
+    return case
+
+
 def parts(tier):
     from vp import golden
     gold = Part('golden', check_golden, enumerate=golden.enum_golden, chunk=1)
     if tier == 'quick':
-        return [gold, Part('chains', check, strategy=G.s_case_controlled(max_len=6, max_steps=30, nonmultiple=True), examples=250, shards=4)]
-    return [gold, Part('chains', check, strategy=G.s_case_controlled(max_len=11, max_steps=120, nonmultiple=True), examples=2500, shards=16)]
+        return [gold, Part('chains', check, strategy=s_case(max_len=6, max_steps=30, nonmultiple=True), examples=250, shards=4)]
+    return [gold, Part('chains', check, strategy=s_case(max_len=11, max_steps=120, nonmultiple=True), examples=2500, shards=16)]
